@@ -212,7 +212,8 @@ def render_sec(s):
     return L.render(s["lst"]["items"], s["lst"]["r"])
 
 
-def render(d):
+def render(d, colon=": "):
+    """colon: what joins a section list to its block in the section-first layouts (': ' or, colon-less, ' ')."""
     lay = d["layout"]
     out = ""
     for gi, g in enumerate(d["groups"]):
@@ -224,7 +225,7 @@ def render(d):
             for si, s in enumerate(g["secs"]):
                 if si:
                     out += g["secs"][si - 1]["sep"]
-                out += render_sec(s) + ": " + s["block"]
+                out += render_sec(s) + colon + s["block"]
         elif lay == "TR_desc_S":
             out += tr + g["tr_sep"]
             for si, s in enumerate(g["secs"]):
@@ -241,7 +242,7 @@ def render(d):
             for si, s in enumerate(g["secs"]):
                 if si:
                     out += g["secs"][si - 1]["sep"]
-                out += render_sec(s) + ": " + s["block"]
+                out += render_sec(s) + colon + s["block"]
             out += g["tr_join"] + tr
         else:
             raise ValueError(lay)
